@@ -90,7 +90,7 @@ PLAN = {
         rule="BFS over generator histories x pairs of accepted analyses (unsound partitions are C07's and skipped)"),
     "C16": dict(
         engine="vmpi", technique="stateless exploration with state hashing of ALL interleavings of the real MPIMaster/MPIWorker/mpi_skel over a virtual MPI (every visible MPI call a scheduling point, one forked child per execution); per-execution oracle exactly-once / truthful map / all ranks return / no deadlock",
-        level_text="for every configuration J<=3(4) jobs x P<=3(4) ranks x R<=3 rounds x eager/rendezvous sends x equal/distinct complexities, both the boss-works-too skeleton and the dedicated-master loop: every interleaving of rank steps (no deviation bound; state-hashed) terminates, runs each job exactly once and returns the same truthful job->rank map on all ranks",
+        level_text="for every configuration J<=3(4) jobs x P<=3(4) ranks x R<=3 rounds x eager/rendezvous sends x equal/distinct complexities, both the boss-works-too skeleton and the dedicated-master loop: every interleaving of rank steps (no deviation bound; state-hashed) - and for the smaller configurations also every interleaving with explicitly delayed message delivery - terminates, runs each job exactly once and returns the same truthful job->rank map on all ranks",
         runs=[("rel", "vx", "C16", 4, [])], deadline_quick=900, deadline_thorough=3300, conformance="rel",
         rule="states = distinct (per-rank observation history, pending operation, in-flight payload) tuples; transitions = enabled alternatives expanded; evaluations = executions run to completion or to an already visited state; non-trivial = distinct job->rank assignments observed in configurations where timing decides the assignment",
         explanation="the explored object is the real dispatcher code; the MPI underneath is a model (engines/vmpi) whose semantics are stated in DESIGN.md section 6. traces_validated_against_impl counts runs of the same dispatcher loops on the REAL MPI (mpiexec -np 2,3, randomised job durations) whose outcome satisfied the oracle and was found in the explored outcome set of the same configuration; a real outcome outside the explored set is an engine error",
